@@ -9,3 +9,5 @@ import Hls.Props.C04
 #print axioms Hls.C04.master_write_parse
 #print axioms Hls.C04.master_roundtrip
 #print axioms Hls.C04.master_fixed_point
+#print axioms Hls.C04.master_roundtrip_wf
+#print axioms Hls.C04.master_fixed_point_wf
